@@ -25,9 +25,10 @@ ASSUMPTIONS = [
     "thread programs are extracted from the real run_conversion_loop / compressor / writer / producers by executing them once per n under recording stubs (data-independent control flow: the sequence of queue and file operations does not depend on sample values)",
     "queue.Queue contract: put blocks while full (maxsize), get blocks while empty, task_done decrements the unfinished count, join blocks until it is 0; FIFO; each operation atomic",
     "granularity: queue operations, thread start and file writes (GIL / OS scheduling below that granularity is outside)",
+    "data: an array handed to a queue must not be written by the calling thread while it is queued or held by its consumer before the consumer's next put / task_done (write-after-publish race; identities of the arrays and the caller's writes into them are recorded during extraction); other sharing of mutable state is outside",
     "bounds: 1..3 plane sets, queue capacities 1, 2 and 16, routes NumPy, SEG-Y 3D and SEG-Y 2D",
 ]
-VOCAB = {'start', 'put', 'get', 'get_to', 'task_done', 'join', 'write', 'flush', 'ret'}
+VOCAB = {'start', 'put', 'get', 'get_to', 'task_done', 'join', 'write', 'flush', 'ret', 'mut'}
 
 
 def extract(route, n, cap):
@@ -49,6 +50,17 @@ def extract(route, n, cap):
         shenv.oplog('ret')
         return r
     C.run_conversion_loop = loop_with_cap
+    # arrays handed to a queue by the calling thread, and writes into them afterwards ('mut' operations of the caller)
+    pub = dict(count=0, ids={})
+    shenv.ctx().published = pub
+
+    def on_mutation(base):
+        e = pub['ids'].get(id(base))
+        if e is not None and e[1] is base and shenv.ctx().baton.current is None:
+            log_ = shenv.ctx().oplog.setdefault(None, [])
+            if not log_ or log_[-1] != ('mut', e[0]):
+                log_.append(('mut', e[0]))
+    lazyarr.MUT_HOOK[0] = on_mutation
     try:
         with Quiet():
             if route == 'numpy':
@@ -66,6 +78,7 @@ def extract(route, n, cap):
                 C.SegyConverter(model.name).run('out.sgz', bits_per_voxel=8, blockshape=bs)
     finally:
         C.run_conversion_loop = real_loop
+        lazyarr.MUT_HOOK[0] = None
     log = shenv.ctx().oplog
     store = fs.stores['out.sgz']
     # a get() with a timeout may also give up on an empty queue: record what the worker does then (its 'timeout path')
@@ -196,6 +209,8 @@ def bmc(main, workers, n, cap, timeout_ms=120000, alts=None):
                 else:
                     en, eff = queue_eff(a, b, op, arg, {'pcm'}, adv)
                 out.append((g, en, eff))
+            elif op == 'mut':
+                out.append((g, z3.BoolVal(True), z3.And(adv, frame(a, b, {'pcm'}))))
             else:   # flush / ret / write by the caller (none expected before ret)
                 if op == 'write':
                     out.append((g, z3.BoolVal(True), z3.And(adv, b['ok'] == z3.BoolVal(False), frame(a, b, {'pcm', 'ok'}))))
@@ -236,6 +251,17 @@ def bmc(main, workers, n, cap, timeout_ms=120000, alts=None):
         return out
 
     done = lambda a: a['pcm'] == len(main)
+    main_q = [arg for (op, arg) in main if op == 'put']
+    q_in = main_q[0] if main_q else 0
+
+    def in_use(j, a):
+        conds = [a['hd%d' % q_in] <= j]          # still in the queue (it was put before the caller reached this operation)
+        for k, (pre, body) in enumerate(loops):
+            if body and body[0][0] in ('get', 'get_to') and body[0][1] == q_in:
+                puts = [i for i, (o, _) in enumerate(body) if o in ('put', 'task_done')]
+                upto = len(pre) + (puts[0] if puts else len(body) - 1)
+                conds.append(z3.And(a['held%d' % k] == j, a['pc%d' % k] > len(pre), a['pc%d' % k] <= upto))
+        return z3.Or(conds)
     bad = []
     choices = []
     for t in range(T):
@@ -250,6 +276,11 @@ def bmc(main, workers, n, cap, timeout_ms=120000, alts=None):
         step = z3.Or([z3.And(ch == tid, g, en, eff) for tid, (g, en, eff) in allc])
         stutter = z3.And(z3.Not(any_en), ch == -1, frame(a, b, set()))
         s.add(z3.Or(step, stutter))
+        for pc, (op, arg) in enumerate(main):
+            if op == 'mut':
+                # the caller writes into the array it handed over as put number `arg` while that array is still queued or held
+                # by the consumer that has not yet produced its output from it: the bytes compressed depend on the schedule
+                bad.append(z3.And(ch == 0, a['pcm'] == pc, in_use(arg, a)))
         bad.append(z3.And(z3.Not(done(a)), z3.Not(any_en)))                       # stuck before the call returns
         bad.append(z3.And(done(a), worker_en))                                     # something can still happen after it returned
     for t in range(T + 1):
@@ -265,6 +296,10 @@ def bmc(main, workers, n, cap, timeout_ms=120000, alts=None):
         sched = []
         for t in range(T):
             v = m.eval(choices[t], model_completion=True).as_long()
+            if v == 0:
+                pcm = m.eval(S[t]['pcm'], model_completion=True).as_long()
+                if 0 <= pcm < len(main) and main[pcm][0] == 'mut':
+                    continue      # not an operation the scripted scheduler of the replay sees
             if v >= 0:
                 sched.append(v)
     return str(r), sched, T, dt
@@ -289,7 +324,7 @@ def run_bmc_item(route, n, cap):
         if res == 'unsat':
             out['discharged'] = 1
         elif res == 'sat':
-            out['cands'] = [dict(msg='a schedule of the writer pipeline breaks termination / file order / quiescence at return', model=dict(schedule=sched),
+            out['cands'] = [dict(msg='a schedule of the writer pipeline breaks termination / file order / quiescence at return / writes into an array another thread may still be reading', model=dict(schedule=sched),
                                  info=dict(route=route, n=n, cap=cap))]
         else:
             out['unknown'] = 1
